@@ -1,6 +1,7 @@
 /- C19 — A shared binding context is safe under concurrent use.
    Property theorems only; helper lemmas live in Proofs/CtxConc.lean. -/
 import XsdataModel.Proofs.CtxConc
+import XsdataModel.Proofs.CtxEvict
 
 namespace Props.C19
 open Py Xs.Ctx
@@ -52,6 +53,28 @@ theorem build_race_benign_warm_cache (U : Universe) (w : World) (progs : List Pr
   rw [hp] at this
   rw [hs] at this
   exact this
+
+/-- **alone_eq_fresh**: what C19 calls "the result when run alone" (`Prog.alone`,
+stated through the cache-free specification) *is* what C14 calls "the result on
+fresh instances" (`fresh`: the sequential call on a newly created context) — for
+every program, universe and world, with no hypothesis.  So "as if alone" in the
+theorems of this file is C14's "as with fresh objects". -/
+theorem alone_eq_fresh (U : Universe) (w : World) (p : Prog) :
+    Prog.alone U w p = fresh U w p.toOp := by
+  have hf : faithful [w] := by
+    intro a ha b hb _
+    simp at ha hb
+    rw [ha, hb]
+  cases p with
+  | build c pn => exact ((stepC_spec (InvR.init U Track.empty) w (.build c pn)).2 rfl).symm
+  | reset => exact ((stepC_spec (InvR.init U Track.empty) w .reset).2 rfl).symm
+  | scan names =>
+    exact ((stepW_spec (op := .findTypeByFields names) (InvR.init U Track.empty) hf).2 rfl).symm
+  | lookup k q =>
+    cases k with
+    | types => exact (step_spec (op := .findTypes q) (Inv.init U Track.empty) ⟨hf, trivial⟩).1.symm
+    | last => exact (step_spec (op := .findType q) (Inv.init U Track.empty) ⟨hf, trivial⟩).1.symm
+    | sub c => exact (step_spec (op := .findSubclass c q) (Inv.init U Track.empty) ⟨hf, trivial⟩).1.symm
 
 /-- one class `PA` in namespace `urn:a` -/
 def oneU : Universe :=
@@ -205,6 +228,20 @@ example : (drain scanU w2 (runSched scanU w2
       [0, 0, 1, 1, 0])).results
     = [some (.gotType (pureFields scanU w2 ["x".toList])), some (.gotTypes [])] := by
   decide
+
+/-- **alone_run_eq_fresh**: and the interleaved semantics agrees with it: a single
+thread on a cold context, stepped by any schedule, finishes with the sequential
+`fresh` result of its call (by-fields scans: when every indexed class is buildable) -/
+theorem alone_run_eq_fresh (U : Universe) (w : World) (p : Prog) (schedule : List Nat)
+    (hnr : p ≠ .reset) (hss : scanSafe U w [p]) :
+    ∀ th ∈ (runSched U w (Sys.start State.init [p]) schedule).threads,
+      ∀ o, th.st = .done o → o = fresh U w th.prog.toOp := by
+  intro th hth o hs
+  have hnr' : noReset [p] := by
+    intro q hq; simp at hq; subst hq; exact hnr
+  rw [← alone_eq_fresh]
+  exact concurrent_safe_with_scans U w [p] schedule State.init hnr' hss
+    (by intro c pn m h; simp [State.init] at h) (by intro h; simp [State.init] at h) th hth o hs
 
 /-! ### what remains excluded: `reset()` racing with other calls -/
 
